@@ -2,6 +2,8 @@
 --overwrite is given."""
 from __future__ import annotations
 
+import posixpath
+
 from gen import base as G
 from gen import trashgen as TG
 from model import layout as ML
@@ -20,7 +22,7 @@ RULE = ('one trash-restore per case: 1-4 trashed entries (file, dir, symlink) wh
         '(trashed kind, destination kind, overwrite, position in selection)')
 ASSUMPTIONS = ['with --overwrite and a directory at the destination the outcome is not specified by the property and not judged',
                'what happens to entries selected after a refused one is not specified and not judged']
-PROBES = ['same-location-twice', 'refused', 'overwritten', 'restored-to-free-destination', 'multi-index', 'dest-dangling', 'dest-symlink-dir', 'dest-dir',
+PROBES = ['restore-across-devices', 'destination-directory-cannot-be-listed', 'same-location-twice', 'refused', 'overwritten', 'restored-to-free-destination', 'multi-index', 'dest-dangling', 'dest-symlink-dir', 'dest-dir',
           'dest-file', 'restored-before-refusal', 'destination-occupied-after-the-listing']
 TECHNIQUE = 'deterministic simulation of trash-restore against generated destination states; snapshot oracle on destination, link targets and trash pair'
 LEVEL_TEXT = 'seeded exploration of trashed kind x destination kind x --overwrite x selection; judged on real file-system semantics'
@@ -38,6 +40,7 @@ def gen(rng):
     n = rng.choice([1, 1, 2, 3, 4])
     ngen2 = 0
     late = [] if rng.random() < 0.15 else None
+    xdev = [0]
     steps.append(['d', home + '/tg', 0o755])
     steps.append(['f', home + '/tg/linked_file', 'target content', 0o644, 1_111_111_111])
     steps.append(['d', home + '/tg/linked_dir', 0o755])
@@ -45,6 +48,11 @@ def gen(rng):
     for i in range(n):
         tdir, top, _u = rng.choice(locs)
         base = (home + '/w') if top is None else (L['work'][top])
+        if top is None and L['vols'] and rng.random() < 0.3:
+            # an entry of the home trash that was trashed from another volume (home fallback, or moved there by a file
+            # manager): restoring it is a copy + delete across devices, not a rename
+            base = L['work'][rng.choice(L['vols'])]
+            xdev[0] += 1
         # (names that end - or, in a relative Path, begin - with blanks: the location is exactly what was recorded, blanks included)
         nm = rng.choice(['', '', '', ' ', '\t']) + 'ent%d' % i + rng.choice(['', '', '', ' ', '\t', '  ', ' \n'])
         if top is not None and nm.startswith((' ', '\t')) and rng.random() < 0.5:
@@ -79,6 +87,11 @@ def gen(rng):
             occ_steps.append(['l', loc, rng.choice(['nothing', '/no/where'])])
         elif dk == 'selfloop':
             occ_steps.append(['l', loc, nm])
+    faults = []
+    if rng.random() < 0.1:
+        # the directory the entries were trashed from can be written and searched but not listed by this user (a drop box, mode
+        # 0300 / 1733): what occupies a destination there still occupies it
+        faults.append({'kind': 'cond', 'what': 'dir_not_readable', 'dir': posixpath.dirname(loc)})
     argv = ['trash-restore']
     if rng.random() < 0.45:
         argv.append('--overwrite')
@@ -96,6 +109,8 @@ def gen(rng):
         'procs': [{'argv': argv, 'env': L['env'], 'cwd': '/', 'uid': L['uid'], 'stdin': reply + '\n'}],
         'dirsalt': rng.randrange(1 << 30),
         'late_occupants': late or [],
+        'faults': faults,
+        'note': {'xdev': xdev[0], 'unlistable': bool(faults)},
     }
 
 
@@ -185,6 +200,10 @@ def check(sim, case, st):
     else:
         r = sim.run(spec)
     st.sims += 1
+    if case.get('note', {}).get('xdev'):
+        st.probes['restore-across-devices'] += 1
+    if case.get('note', {}).get('unlistable'):
+        st.probes['destination-directory-cannot-be-listed'] += 1
     st.ops += r.nops
     snap1 = sim.snap()
     res = []
